@@ -5,11 +5,13 @@ Property theorems only; lemmas live in Neutrino/Lemmas/Utxo*.lean.
 Clauses:
 * the answer is right (`C10_answer`; exact form `C10_answer_exact_partial`, falsified for duplicate requests with
   different start heights: `C10_answer_exact_counterexample`);
-* a request is answered at most once (`C10_once`) and the request object hands the first answer out
-  (`C10_result_first`, `C10_deliver_drops_second`; a repeated `Result` blocks: `C10_result_idempotent_counterexample`);
-* every request is answered: falsified by the start-height-above-tip spin (`C10_all_answered_counterexample`) and
-  by requests dropped at a failed block fetch (`C10_lost_counterexample`); what holds is
-  `C10_all_answered_partial`, `C10_lost_empty`, `C10_all_answered_no_failures`, `C10_spin_only_above_tip`.
+* a request is answered at most once (`C10_once`) and the request object hands the first answer out, to every call
+  (`C10_result_first`, `C10_deliver_drops_second`, `C10_result_idempotent`);
+* no request is lost: at every moment each request that entered is queued, held by the reporter, or has been
+  delivered to (`C10_none_lost`); once the manager is idle or stopped every one has been delivered to
+  (`C10_all_answered_partial`, failure paths included);
+* every request is answered: falsified by the start-height-above-tip spin (`C10_all_answered_counterexample`); the
+  spin is the only way not to finish (`C10_spin_only_above_tip`, `C10_no_spin_partial`).
 -/
 import Neutrino.Lemmas.UtxoPerm
 import Neutrino.Lemmas.UtxoExact
@@ -119,11 +121,34 @@ theorem C10_result_first (o : ReqObj) (r : Res) (h : o = {}) : ((o.deliver r).re
 theorem C10_deliver_drops_second :
     ∀ r1 r2, (({} : ReqObj).deliver r1).deliver r2 = ({} : ReqObj).deliver r1 := fun _ _ => rfl
 
-/-- the full property says a repeated `Result` returns the same answer; in the code the second call blocks
-(the single buffered delivery has been consumed and the cache is only consulted after a receive) -/
-theorem C10_result_idempotent_counterexample :
-    ∃ r, let o := ({} : ReqObj).deliver r; (o.result.1.result).2 = none :=
-  ⟨.err .shutdown, rfl⟩
+/-- once a `Result` call has returned `r`, every later call returns `r` and leaves the object as it is (any object
+state, any deliveries in between being dropped or not) -/
+theorem C10_result_idempotent (o : ReqObj) (r : Res) (h : (o.result).2 = some r) :
+    o.result.1.result = (o.result.1, some r) := by
+  obtain ⟨chan, cache⟩ := o
+  cases cache with
+  | some c =>
+    simp only [ReqObj.result] at h ⊢
+    rw [h]
+  | none =>
+    cases chan with
+    | none => simp only [ReqObj.result] at h; cases h
+    | some x =>
+      simp only [ReqObj.result] at h ⊢
+      rw [h]
+
+/-- ... and so do `n` further calls -/
+theorem C10_result_idempotent_iter (o : ReqObj) (r : Res) (h : (o.result).2 = some r) :
+    ∀ n, Nat.repeat (fun p : ReqObj × Option Res => p.1.result) n o.result = (o.result.1, some r)
+  | 0 => Prod.ext rfl h
+  | n + 1 => by
+    show (Nat.repeat (fun p : ReqObj × Option Res => p.1.result) n o.result).1.result = _
+    rw [C10_result_idempotent_iter o r h n]
+    exact C10_result_idempotent o r h
+
+example : let o := ({} : ReqObj).deliver (.ok (.spent 2 0 2))
+    o.result.2 = some (.ok (.spent 2 0 2)) ∧ o.result.1.result.2 = some (.ok (.spent 2 0 2)) ∧
+    (o.result.1.deliver (.err .shutdown)).result.2 = some (.ok (.spent 2 0 2)) := by decide
 
 /-! ### every request is answered -/
 
@@ -136,54 +161,53 @@ theorem C10_all_answered_counterexample :
    [⟨1, ⟨1, 0⟩, 5⟩],
    fun _ _ _ _ _ _ h => Bool.noConfusion (Option.some.inj h), by decide, by decide⟩
 
-/-- ... and a request dequeued at a height whose block fetch fails is dropped without any delivery. -/
-theorem C10_lost_counterexample :
-    ∃ (w : World) (q : Req), FilterSound w ∧ (run w 10 10 [q]).1 = .idle ∧ (run w 10 10 [q]).2.out = [] ∧
-      (run w 10 10 [q]).2.lost = [q] :=
-  ⟨{ chain := [[]], tip := fun _ => 0, arrive := fun _ => [], stopAt := fun _ => false,
-     hashErr := fun _ => false, fm := fun _ _ _ => some true, blockErr := fun _ => true },
-   ⟨1, ⟨1, 0⟩, 0⟩,
-   fun _ _ _ _ _ _ h => Bool.noConfusion (Option.some.inj h), by decide, by decide, by decide⟩
+/-- No request is ever lost: whatever the run status (fuel exhaustion included) every request that entered is still
+queued, deferred to the next batch, held by the reporter, or has been delivered to — as multisets. -/
+theorem C10_none_lost (w : World) (sf mf : Nat) (init : List Req) :
+    let r := run w sf mf init
+    (r.2.pq ++ r.2.next ++ entReqs r.2.ents ++ r.2.out.map (·.req)).Perm (init ++ arrived w r.2.k) :=
+  (run_cons w sf mf init).perm
 
-/-- Once the manager is idle or stopped nothing is queued or watched: every request that entered has been delivered
-to or is in `lost`. -/
+/-- a run cut short inside a batch: one request deferred to the next batch, one held by the reporter, two answered -/
+example : (run exW 3 10 exInit).1 = .fuelOut ∧ (run exW 3 10 exInit).2.next.map (·.id) = [4] ∧
+    (entReqs (run exW 3 10 exInit).2.ents).map (·.id) = [3] ∧
+    (run exW 3 10 exInit).2.out.map (·.req.id) = [1, 2] := by decide
+
+/-- Once the manager is idle or stopped nothing is queued or watched and every request that entered has been
+delivered to — block-fetch failures and `Stop` included (the requests dequeued at the failing height get the error). -/
 theorem C10_all_answered_partial (w : World) (sf mf : Nat) (init : List Req) :
     let r := run w sf mf init
     (r.1 = .idle ∨ r.1 = .stopped) →
-      r.2.pq = [] ∧ r.2.next = [] ∧ r.2.ents = [] ∧
-      (r.2.out.map (·.req) ++ r.2.lost).Perm (init ++ arrived w r.2.k) := by
+      r.2.pq = [] ∧ r.2.next = [] ∧ r.2.ents = [] ∧ (r.2.out.map (·.req)).Perm (init ++ arrived w r.2.k) := by
   intro r hs
   have hfin := mgr_final w sf mf { pq := init } rfl hs
   refine ⟨hfin.1, hfin.2.1, hfin.2.2, ?_⟩
-  apply List.perm_iff_count.2
-  intro q
-  have hc := run_cons w sf mf init q
-  show List.count q ((run w sf mf init).2.out.map (·.req) ++ (run w sf mf init).2.lost)
-    = List.count q (init ++ arrived w (run w sf mf init).2.k)
+  have hp := C10_none_lost w sf mf init
   have h1 : (run w sf mf init).2.pq = [] := hfin.1
   have h2 : (run w sf mf init).2.next = [] := hfin.2.1
   have h3 : (run w sf mf init).2.ents = [] := hfin.2.2
-  simp only [holds, h1, h2, h3, entReqs_nil, List.count_append, List.count_nil] at hc
-  simp only [List.count_append]
-  omega
+  simp only [h1, h2, h3, entReqs_nil, List.append_nil, List.nil_append] at hp
+  exact hp
 
-/-- `lost` stays empty when no block fetch fails and `Stop` is not called -/
-theorem C10_lost_empty (w : World) (hb : ∀ k, w.blockErr k = false) (hs : ∀ k, w.stopAt k = false)
-    (sf mf : Nat) (init : List Req) :
-    (run w sf mf init).2.lost = [] ∧ (run w sf mf init).2.quit = false :=
-  ⟨(run_noLoss w hb hs sf mf init).2, (run_noLoss w hb hs sf mf init).1⟩
-
-/-- without block-fetch failures and `Stop`, an idle manager has delivered to exactly the requests that entered -/
-theorem C10_all_answered_no_failures (w : World) (hb : ∀ k, w.blockErr k = false) (hs : ∀ k, w.stopAt k = false)
-    (sf mf : Nat) (init : List Req) (hi : (run w sf mf init).1 = .idle) :
-    ((run w sf mf init).2.out.map (·.req)).Perm (init ++ arrived w (run w sf mf init).2.k) := by
-  have h := (C10_all_answered_partial w sf mf init (Or.inl hi)).2.2.2
-  rw [(C10_lost_empty w hb hs sf mf init).1, List.append_nil] at h
-  exact h
-
-example : (∀ k, exW.blockErr k = false) ∧ (∀ k, exW.stopAt k = false) ∧ (run exW 20 10 exInit).1 = .idle ∧
+example : (run exW 20 10 exInit).1 = .idle ∧
     (run exW 20 10 exInit).2.out.length = 4 ∧ (run exW 20 10 exInit).2.k = 8 :=
-  ⟨fun _ => rfl, fun _ => rfl, by decide, by decide, by decide⟩
+  ⟨by decide, by decide, by decide⟩
+
+/-- failure path: the block fetch of the request's start height fails; the request gets the error -/
+example :
+    let w : World := { chain := [[]], tip := fun _ => 0, arrive := fun _ => [], stopAt := fun _ => false,
+                       hashErr := fun _ => false, fm := fun _ _ _ => some true, blockErr := fun _ => true }
+    let q : Req := ⟨1, ⟨1, 0⟩, 0⟩
+    (run w 10 10 [q]).1 = .idle ∧
+    (run w 10 10 [q]).2.out.map (fun d => (d.req.id, d.res)) = [(1, .err .blockFail)] := by decide
+
+/-- failure path: `Stop` during the `GetBlockHash` call of the request's start height; the request gets the error -/
+example :
+    let w : World := { chain := [[]], tip := fun _ => 0, arrive := fun _ => [], stopAt := fun k => k == 1,
+                       hashErr := fun _ => false, fm := fun _ _ _ => some true, blockErr := fun _ => false }
+    let q : Req := ⟨1, ⟨1, 0⟩, 0⟩
+    (run w 10 10 [q]).1 = .idle ∧
+    (run w 10 10 [q]).2.out.map (fun d => (d.req.id, d.res)) = [(1, .err .shutdown)] := by decide
 
 /-- the only way not to finish (fuel aside) is the spin: the queue is non-empty and every queued request starts
 above the tip -/
@@ -208,7 +232,7 @@ theorem C10_no_spin_partial (w : World) (sf mf : Nat) (init : List Req)
     have hq : q ∈ (run w sf mf init).2.pq := by rw [hpq]; exact List.mem_cons_self
     have hh : q ∈ holds (run w sf mf init).2 := by
       unfold holds
-      exact List.mem_append_left _ (List.mem_append_left _ (List.mem_append_left _ (List.mem_append_left _ hq)))
+      exact List.mem_append_left _ (List.mem_append_left _ (List.mem_append_left _ hq))
     have hin := hp.subset hh
     have h1 := hb _ q hin (run w sf mf init).2.k
     have h2 := hall q hq
@@ -225,22 +249,25 @@ example : (∀ k, ∀ q ∈ exInit ++ arrived exW k, ∀ j, q.birth ≤ exW.tip 
 /-- What the model takes from the Go source, re-extracted from the repo's working tree on every run:
 `ProcessBlock` adds the new requests and looks for their initial outputs before it looks for spends (`joinReq`
 before `notifySpends`); `dequeueAtHeight` defers with `<` and takes with `==` (the partition in `stepH`);
-`scanFromHeight` makes a fresh reporter, fails the remaining requests on every error path and ends with
+`scanFromHeight` makes a fresh reporter, fails the remaining requests on every error path (and, after the dequeue, the
+just-dequeued ones with `failRequests`: `failNew`), and ends with
 `NotifyUnspentAndUnfound` (`scan`); `notifyRequests` forgets the outpoint in all three maps before it delivers (one
 `Entry` list); a nil initial report does not overwrite a recorded one (`mergeInit`, the F5 repair); `deliver` is a
-non-blocking send on a channel of capacity 1 (`ReqObj`). -/
+non-blocking send on a channel of capacity 1 and `Result` returns the cached result before it selects (`ReqObj`). -/
 theorem C10_source_facts :
     Gen.Utxo.processBlockSteps = ["b.addNewRequests", "b.findInitialTransactions", "b.notifySpends"] ∧
     Gen.Utxo.dequeueOps = ["<", "=="] ∧
     Gen.Utxo.dequeueTargets = ["s.nextBatch", "requests"] ∧
     Gen.Utxo.scanSeq = ["s.cfg.BestSnapshot", "newBatchSpendReporter", "reporter.FailRemaining",
       "s.cfg.GetBlockHash", "reporter.FailRemaining", "s.dequeueAtHeight", "s.cfg.BlockFilterMatches",
-      "reporter.FailRemaining", "reporter.NotifyProgress", "reporter.FailRemaining", "s.cfg.GetBlock",
-      "reporter.FailRemaining", "reporter.FailRemaining", "reporter.ProcessBlock", "reporter.NotifyProgress",
+      "reporter.FailRemaining", "reporter.NotifyProgress", "failRequests", "reporter.FailRemaining",
+      "s.cfg.GetBlock", "failRequests", "reporter.FailRemaining", "failRequests", "reporter.FailRemaining",
+      "reporter.ProcessBlock", "reporter.NotifyProgress",
       "s.cfg.BestSnapshot", "reporter.FailRemaining", "reporter.NotifyUnspentAndUnfound"] ∧
     Gen.Utxo.notifyRequestsSeq = ["delete b.requests", "delete b.initialTxns", "delete b.outpoints", "deliver"] ∧
     Gen.Utxo.initialKeepsNonNil = true ∧
     Gen.Utxo.deliverNonBlocking = true ∧
+    Gen.Utxo.resultChecksCacheFirst = true ∧
     Gen.Utxo.resultChanCap = 1 := by decide
 
 end Neutrino.Utxo
